@@ -779,6 +779,70 @@ fn c17_monitor(pre: &DirImage, tr: &Trace) -> Result<u64, Violation> {
     Ok(checked)
 }
 
+
+// ---------------------------------------------------------------------------------------------
+// C04 order monitor: "every piece of data the new state depends on is made durable before the
+// single atomic switch-over, and nothing the old state depends on is modified or discarded before
+// the switch-over is durable" — decided on the ordered trace itself, with no cap and no image.
+
+fn c04_order_monitor(tr: &Trace) -> Result<u64, Violation> {
+    let mut checked = 0u64;
+    let syncs: Vec<&vio::Event> = tr.events.iter().filter(|e| is_sync(e)).collect();
+    // is `e` covered by a sync of its file (its directory for create / unlink) that was submitted
+    // after the issuing code had learnt of e's completion and that completed before `before`?
+    let covered = |e: &vio::Event, before: u64| -> Result<(), String> {
+        let Some(done) = e.done else { return Err("its completion was never received".into()) };
+        let dir_op = matches!(e.kind, vio::Kind::Create | vio::Kind::Unlink);
+        let ok = syncs.iter().any(|s| {
+            let same = if dir_op { s.file == "DIR" } else { s.file == e.file && matches!(s.kind, vio::Kind::Fsync | vio::Kind::FsyncData) };
+            same && s.seq > done && s.done.map_or(false, |d| d < before)
+        });
+        if ok {
+            Ok(())
+        } else {
+            Err(format!("no {} submitted after its completion (stamp {done}) had completed by then", if dir_op { "directory sync" } else { "fsync of its file" }))
+        }
+    };
+    let meta_write = tr.events.iter().find(|e| e.file == "meta" && matches!(e.kind, vio::Kind::Write { .. }));
+    if let Some(m) = meta_write {
+        // R1: everything issued before the switch-over record is written is durable by then
+        for e in tr.events.iter().filter(|e| is_mutation(e) && e.seq < m.seq && e.file != "meta") {
+            checked += 1;
+            if let Err(why) = covered(e, m.seq) {
+                return Err(viol(
+                    "not-durable-before-switch-over",
+                    format!("{} (stamp {}) precedes the meta write (stamp {}) but {why}", ev_desc(e), e.seq, m.seq),
+                ));
+            }
+        }
+        // R2: nothing else is modified or discarded until the switch-over is durable
+        let durable = tr.meta_durable();
+        for e in tr.events.iter().filter(|e| is_mutation(e) && e.seq > m.seq && e.file != "meta") {
+            checked += 1;
+            if durable.map_or(true, |d| e.seq < d) {
+                return Err(viol(
+                    "modified-before-switch-over-durable",
+                    format!("{} (stamp {}) is issued after the meta write (stamp {}) but before the meta fsync has completed ({})", ev_desc(e), e.seq, m.seq, durable.map_or("never".to_string(), |d| format!("stamp {d}"))),
+                ));
+            }
+        }
+    }
+    // R3 (also during recovery, where there is no meta write): the redo log is collapsed only after
+    // every hash-table write issued before it is durable
+    for t in tr.events.iter().filter(|e| e.file == "wal" && matches!(e.kind, vio::Kind::SetLen(0))) {
+        for e in tr.events.iter().filter(|e| e.file == "ht" && is_mutation(e) && e.seq < t.seq) {
+            checked += 1;
+            if let Err(why) = covered(e, t.seq) {
+                return Err(viol(
+                    "wal-collapsed-before-table-durable",
+                    format!("{} (stamp {}) precedes the WAL truncation (stamp {}) but {why}", ev_desc(e), e.seq, t.seq),
+                ));
+            }
+        }
+    }
+    Ok(checked)
+}
+
 // ---------------------------------------------------------------------------------------------
 // Case execution
 
@@ -900,6 +964,16 @@ impl CrashX {
                     out.goals.push("segment-pruned-or-truncated");
                 }
                 return Ok(());
+            }
+            if mode == "c04" || mode == "c04o" {
+                let n = c04_order_monitor(&tr)?;
+                out.transitions += n;
+                if n > 0 {
+                    out.goals.push("order-monitor:operations-checked");
+                }
+                if mode == "c04o" {
+                    return Ok(());
+                }
             }
             let cuts = if mode == "c03" {
                 cuts_process_crash(&tr, cap, &mut capped)
@@ -1729,7 +1803,7 @@ impl Engine for CrashX {
 
     fn run(&mut self, prop: &str, case: &Value) -> Outcome {
         match case["mode"].as_str().unwrap() {
-            "c03" | "c04" | "c17" => self.run_cuts(prop, case),
+            "c03" | "c04" | "c04o" | "c17" => self.run_cuts(prop, case),
             "c14" => self.run_faults(prop, case),
             "c14x" => self.run_exhaustion(prop, case),
             "kill" => self.run_kill(prop, case),
